@@ -76,7 +76,9 @@ Definition spec_insert_closure (K : cplx) (s : simplex) (v : V) : cplx :=
 Definition spec_batch (K : cplx) (vs : list Z) (v : V) : cplx :=
   fold_left (fun K x => match lookup K [x] with None => cset K [x] v | Some _ => K end) vs K.
 Definition spec_remove (K : cplx) (s : simplex) : cplx := filter (fun p => negb (seqb (fst p) s)) K.
-Definition spec_prune_filt (K : cplx) (f : V) : cplx := filter (fun p => negb (f <? snd p)) K.
+(* keeps the simplices whose value (first binding) is <= f *)
+Definition spec_prune_filt (K : cplx) (f : V) : cplx :=
+  filter (fun p => match lookup K (fst p) with Some w => negb (f <? w) | None => false end) K.
 Definition spec_prune_dim (K : cplx) (d : Z) : cplx := filter (fun p => sdim (fst p) <=? d) K.
 Definition edge_key (u v : Z) : simplex := if u <? v then [u; v] else [v; u].
 (* graph with vertices 0..nv-1 (values vw) and weighted edges; first occurrence of an edge wins *)
@@ -178,3 +180,10 @@ Qed.
 Lemma spec_prune_dim_lookup K d s :
   lookup (spec_prune_dim K d) s = if sdim s <=? d then lookup K s else None.
 Proof. unfold spec_prune_dim. apply (lookup_filter_key K (fun t => sdim t <=? d)). Qed.
+Lemma spec_prune_filt_lookup K f s :
+  lookup (spec_prune_filt K f) s = match lookup K s with Some w => if f <? w then None else Some w | None => None end.
+Proof.
+  unfold spec_prune_filt.
+  rewrite (lookup_filter_key K (fun t => match lookup K t with Some w => negb (f <? w) | None => false end)).
+  destruct (lookup K s) as [w|]; [destruct (f <? w)|]; reflexivity.
+Qed.
